@@ -119,6 +119,17 @@ func sweep(x *mon.Ctx) {
 				ms = append(ms, mutant{b: w.get(sn).data, what: "valid/" + sn})
 			}
 			r.run(c, e, ms)
+			for _, sn := range e.seeds {
+				accepted := false
+				p := mon.Try(func() { accepted = e.f(w.get(sn).data) })
+				expectReject := false
+				for _, rj := range e.rejects {
+					expectReject = expectReject || rj == sn
+				}
+				if p == nil && accepted == expectReject {
+					x.HarnessError("entry point %s: seed artefact %s accepted=%v, expected the opposite: mutating it would explore nothing", e.name, sn, accepted)
+				}
+			}
 			c.End()
 		}
 		for _, kind := range []int{kTiny, kCross} {
